@@ -408,6 +408,7 @@ func (s *Server) serve(rawConn net.Conn, implicitTLS bool, sess *Session) {
 	var txn *Txn // open transaction (MAIL accepted or attempted)
 	inTxn := false
 	dataN := 0
+	lastEOD := 0
 
 	for {
 		line, err := c.readLine()
@@ -448,6 +449,17 @@ func (s *Server) serve(rawConn net.Conn, implicitTLS bool, sess *Session) {
 		c.step = step
 		sess.Steps = append(sess.Steps, step)
 		o := sc.outcome(step)
+		if verb == "RSET" && lastEOD > 0 {
+			// alias: the RSET that follows the end-of-data of the lastEOD-th MAIL
+			alias := fmt.Sprintf("rsetafter#%d", lastEOD)
+			if ao, ok := sc.Steps[alias]; ok {
+				o = ao
+			}
+			lastEOD = 0
+		}
+		if verb == "MAIL" {
+			lastEOD = 0
+		}
 		send := func(def string) (code int) {
 			// returns the code that was sent (0 for drop/stall/garbage)
 			switch o.Kind {
@@ -461,7 +473,7 @@ func (s *Server) serve(rawConn net.Conn, implicitTLS bool, sess *Session) {
 				c.reply("this is not an SMTP reply")
 				return 0
 			case "reply", "dropafter":
-				txt := fmt.Sprintf("%d %s [%s]", o.Code, o.Text, step)
+				txt := formatReply(o.Code, o.Text, step)
 				sess.Replies[step] = txt
 				c.reply(txt)
 				if o.Kind == "dropafter" {
@@ -763,6 +775,7 @@ func (s *Server) serve(rawConn net.Conn, implicitTLS bool, sess *Session) {
 			if code >= 200 && code < 300 {
 				txn.Committed = true
 			}
+			lastEOD = sess.counts["MAIL"]
 			inTxn, txn = false, nil
 		case "QUIT":
 			sess.QuitSeen = true
@@ -830,6 +843,20 @@ func (c *connState) readData(limit int, stall bool, s *Server) (payload []byte, 
 		}
 		buf.Write(b)
 	}
+}
+
+// formatReply renders a (possibly multi-line, "\n"-separated) reply text with the step tag
+// appended to the last line.
+func formatReply(code int, text, step string) string {
+	lines := strings.Split(text, "\n")
+	for i := range lines {
+		if i < len(lines)-1 {
+			lines[i] = fmt.Sprintf("%d-%s", code, lines[i])
+		} else {
+			lines[i] = fmt.Sprintf("%d %s [%s]", code, lines[i], step)
+		}
+	}
+	return strings.Join(lines, "\n")
 }
 
 func hasCap(caps []string, k string) bool {
